@@ -19,7 +19,7 @@ RULE = (
     "per-field complete domains through the real state queries: type-1 state x {time left, time on, auto-off} 0..86399 s, "
     "watts 0..65535; shutter position 0..255 x 3 directions; thermostat power x 5 modes x 4 fans x 2 swings (all 80), "
     "temperature 0..65535 tenths, target 0..255, remote ids of 1..8 characters; login session bytes over all values; "
-    "pairwise corner values. quick strides the 16-bit / 86400 domains (boundaries + every 61st/97th value). "
+    "pairwise corner values. quick strides the 16-bit / 86400 domains (boundaries + every 13th/17th value). "
     "non-trivial = the query returned a response object that was compared; distinct by (query, encoded fields)."
 )
 ASSUMPTIONS = [
@@ -36,12 +36,13 @@ def strided(n, step, corners):
     return sorted(set(range(0, n, step)) | {c for c in corners if c < n} | {n - 1})
 
 
-def all_cases(tier):
+def all_cases(tier, seed=0):
     cs = []
     full = tier == "thorough"
-    T = list(range(86400)) if full else strided(86400, 61, T_CORNERS)
-    W = list(range(65536)) if full else strided(65536, 97, W_CORNERS)
-    base = dict(on=True, watts=1640, time_left=2700, time_on=2701, auto_off=10800)
+    T = list(range(86400)) if full else strided(86400, 13, T_CORNERS)
+    W = list(range(65536)) if full else strided(65536, 17, W_CORNERS)
+    base = [dict(on=True, watts=1640, time_left=2700, time_on=2701, auto_off=10800), dict(on=True, watts=2600, time_left=5400, time_on=1799, auto_off=7200),
+            dict(on=True, watts=257, time_left=86399, time_on=1, auto_off=3600), dict(on=False, watts=65535, time_left=61, time_on=3661, auto_off=86340)][seed % 4]
     for on in (True, False):
         for t in T:
             if on or t % 5 == 0 or not full:
@@ -60,11 +61,13 @@ def all_cases(tier):
     for p in range(256):
         for d in ("stop", "up", "down"):
             cs.append(("get_shutter_state", dict(position=p, direction=d)))
-    tb = dict(on=True, mode="cool", fan="low", swing=False, temp_tenths=281, target=24, remote="ELEC7001")
+    tb = [dict(on=True, mode="cool", fan="low", swing=False, temp_tenths=281, target=24, remote="ELEC7001"),
+          dict(on=False, mode="heat", fan="high", swing=True, temp_tenths=195, target=30, remote="ZM079055"),
+          dict(on=True, mode="dry", fan="auto", swing=True, temp_tenths=300, target=16, remote="DLK22")][seed % 3]
     for on, mode, fan, swing in itertools.product((True, False), RP.MODES, RP.FANS, (True, False)):
         for temp, target in ((281, 24), (0, 0), (65535, 255), (256, 16), (255, 30)):
             cs.append(("get_breeze_state", dict(tb, on=on, mode=mode, fan=fan, swing=swing, temp_tenths=temp, target=target)))
-    for t in (range(65536) if full else strided(65536, 97, [0, 1, 9, 10, 255, 256, 281, 999, 1000, 32767, 32768])):
+    for t in (range(65536) if full else strided(65536, 17, [0, 1, 9, 10, 255, 256, 281, 999, 1000, 32767, 32768])):
         cs.append(("get_breeze_state", dict(tb, temp_tenths=t)))
     for t in range(256):
         cs.append(("get_breeze_state", dict(tb, target=t)))
@@ -86,7 +89,7 @@ def all_cases(tier):
 
 def jobs(tier, seed):
     n = 64 if tier == "thorough" else 16
-    return [{"tier": tier, "i": i, "n": n} for i in range(n)]
+    return [{"tier": tier, "seed": seed, "i": i, "n": n} for i in range(n)]
 
 
 def _nm(x):
@@ -179,7 +182,7 @@ class Runner:
 
 def run_job(job):
     res = Res()
-    cases = all_cases(job["tier"])[job["i"]::job["n"]]
+    cases = all_cases(job["tier"], job.get("seed", 0))[job["i"]::job["n"]]
     run = Runner()
     try:
         for op, f in cases:
